@@ -224,7 +224,26 @@ func detectZIPFormat(r io.ReaderAt, size int64) (Format, error) {
 		}
 	}
 
-	// Check for Office Open XML markers
+	// Check for the Office Open XML main parts first: they identify the format
+	// whatever the order of the archive members and whatever else is embedded
+	hasPart := func(name string) bool {
+		for _, f := range zr.File {
+			if f.Name == name {
+				return true
+			}
+		}
+		return false
+	}
+	switch {
+	case hasPart("word/document.xml"):
+		return DOCX, nil
+	case hasPart("xl/workbook.xml"):
+		return XLSX, nil
+	case hasPart("ppt/presentation.xml"):
+		return PPTX, nil
+	}
+
+	// Fall back to Office Open XML directory markers
 	for _, f := range zr.File {
 		switch {
 		case f.Name == "[Content_Types].xml":
